@@ -52,7 +52,7 @@ theorem printList_append (lead : Nat) (occ : Option Occur) (o : Opd) (more : Lis
   simp [printList, printRest_append]
 
 theorem needRest_le (g : Bool) (more : List PItem) (k : Nat) (tail : Str)
-    (hm : ∀ it ∈ more, GoodOpd g it.opd) :
+    (hm : ∀ it ∈ more, GoodItem g it.opd) :
     needRest more + 4 * tail.length ≤ 4 * (printRest more k tail).length + 3 := by
   induction more with
   | nil => simp [needRest, printRest, spaces]; omega
@@ -66,7 +66,7 @@ theorem needRest_le (g : Bool) (more : List PItem) (k : Nat) (tail : Str)
 
 /-- a parenthesised list of good operands is a good operand -/
 theorem goodOpd_group (g : Bool) (lead : Nat) (occ : Option Occur) (o : Opd) (more : List PItem) (k : Nat)
-    (ho : GoodOpd g o) (hm : ∀ it ∈ more, GoodOpd g it.opd) :
+    (ho : GoodItem g o) (hm : ∀ it ∈ more, GoodItem g it.opd) :
     GoodOpd g (groupOpd lead occ o more k) := by
   refine ⟨⟨'(', printList lead occ o more k [')'], rfl, by decide, by decide, by decide, by decide, by decide⟩,
     ?_, ?_, ?_⟩
@@ -162,14 +162,13 @@ theorem wf_good (g : Bool) (o : Opd) (h : WFOpd o) : GoodOpd g o := by
   | elastic k w hw => exact goodOpd_elastic g k w hw
   | fieldElastic f k w hf hw => exact goodOpd_fieldElastic g f k w hf hw
   | not k o _ ih => exact goodOpd_not g k o ih
-  | group lead occ o more k _ _ iho ihm => exact goodOpd_group g lead occ o more k iho ihm
+  | group lead occ o more k _ _ iho ihm =>
+    exact goodOpd_group g lead occ o more k iho.toItem (fun it hi => (ihm it hi).toItem)
 
-/-- the whole strict parser on a printed operand list of well-formed operands -/
-theorem parseStrictWith_printList (g : Bool) (lead : Nat) (occ : Option Occur) (o : Opd)
-    (more : List PItem) (k : Nat) (ho : WFOpd o) (hm : ∀ it ∈ more, WFOpd it.opd) :
+/-- the whole strict parser on a printed list of good items -/
+theorem parseStrictWith_items (g : Bool) (lead : Nat) (occ : Option Occur) (o : Opd)
+    (more : List PItem) (k : Nat) (hgo : GoodItem g o) (hgm : ∀ it ∈ more, GoodItem g it.opd) :
     parseStrictWith g (printList lead occ o more k []) = .tree (rewrite (listTree occ o more)) := by
-  have hgo := wf_good g o ho
-  have hgm : ∀ it ∈ more, GoodOpd g it.opd := fun it hi => wf_good g it.opd (hm it hi)
   have hsk : skip0 (printList lead occ o more k []) = printList 0 occ o more k [] := by
     have := skip0_printList g lead occ o hgo (printRest more k [])
     simpa [printList, spaces] using this
@@ -181,5 +180,12 @@ theorem parseStrictWith_printList (g : Bool) (lead : Nat) (occ : Option Occur) (
   have hp := pAst_print g 0 occ o more k [] (Or.inl rfl) hgo hgm _ hlen
   unfold parseStrictWith
   simp only [hsk, hp]
+
+/-- the whole strict parser on a printed operand list of well-formed operands -/
+theorem parseStrictWith_printList (g : Bool) (lead : Nat) (occ : Option Occur) (o : Opd)
+    (more : List PItem) (k : Nat) (ho : WFOpd o) (hm : ∀ it ∈ more, WFOpd it.opd) :
+    parseStrictWith g (printList lead occ o more k []) = .tree (rewrite (listTree occ o more)) :=
+  parseStrictWith_items g lead occ o more k (wf_good g o ho).toItem
+    (fun it hi => (wf_good g it.opd (hm it hi)).toItem)
 
 end TantivyModel.Grammar.Chars
